@@ -153,6 +153,35 @@ func resultSets() [][][]driver.Value {
 
 var resultCols = []string{"i", "s", "f", "b"}
 
+// noPartialData: a frame that reports a read failure hands out no cells: Len() is -1 and every typed view of
+// every column the source has is refused.
+func noPartialData(q qframe.QFrame, names []string, what string) *core.Failure {
+	if q.Err == nil {
+		return nil
+	}
+	if q.Len() != -1 {
+		return core.Failf("%s: the failed frame has Len() %d", what, q.Len())
+	}
+	for _, n := range names {
+		if v, err := q.IntView(n); err == nil {
+			return core.Failf("%s: the failed frame hands out %d int cells of column %q (partial data)", what, v.Len(), n)
+		}
+		if v, err := q.FloatView(n); err == nil {
+			return core.Failf("%s: the failed frame hands out %d float cells of column %q (partial data)", what, v.Len(), n)
+		}
+		if v, err := q.BoolView(n); err == nil {
+			return core.Failf("%s: the failed frame hands out %d bool cells of column %q (partial data)", what, v.Len(), n)
+		}
+		if v, err := q.StringView(n); err == nil {
+			return core.Failf("%s: the failed frame hands out %d string cells of column %q (partial data)", what, v.Len(), n)
+		}
+		if v, err := q.EnumView(n); err == nil {
+			return core.Failf("%s: the failed frame hands out %d enum cells of column %q (partial data)", what, v.Len(), n)
+		}
+	}
+	return nil
+}
+
 func runFaultCase(c faultCase) *core.Failure {
 	switch c.Entry {
 	case "ReadCSV", "ReadJSON":
@@ -187,6 +216,9 @@ func runFaultCase(c faultCase) *core.Failure {
 			q = qframe.ReadJSON(rd)
 		}
 		delivered := rd.deliveredFault()
+		if f := noPartialData(q, []string{"x", "y", "a", "b", "k", "v", "id", "s", "t", "name", "city"}, fmt.Sprintf("%s(%q) with the reader failing at byte %d", c.Entry, doc, c.At)); f != nil {
+			return f
+		}
 		what := fmt.Sprintf("%s(%q) with the reader failing at byte %d with error kind %d (%d bytes delivered with the error, chunk %d, cuts %v)", c.Entry, doc, c.At, c.ErrKind, c.With, c.Chunk, c.Cuts)
 		if delivered && q.Err == nil {
 			// A JSON document is self-delimiting: when the reader hands over the last bytes of the
@@ -266,7 +298,7 @@ func runFaultCase(c faultCase) *core.Failure {
 		if q.Err == nil && q.Len() != len(st.ResultRows) && len(st.ResultRows) > 0 {
 			return core.Failf("%s: error-free frame with %d rows, the result set has %d", what, q.Len(), len(st.ResultRows))
 		}
-		return nil
+		return noPartialData(q, resultCols, what)
 	case "ToSQL":
 		q := faultFrames()[c.Input]
 		st := sqlmem.NewStore()
